@@ -1500,7 +1500,10 @@ func (s *PrintCtx) appendValue(val any) {
 					hintInternal(err, "MarshalText failed")
 					break
 				}
-				s.pcAppendStringValue(string(data))
+				// the marshalled text is arbitrary: quote and escape it like
+				// any other string value, so that it can neither split the
+				// line, forge a pair nor recolour the terminal.
+				s.pcQuoteValue(string(data))
 				break
 			}
 		}
